@@ -61,7 +61,7 @@ ALLOW_STR = {
     ('_norm_g', 'py', 'g'): 'same', ('_norm_g', 'js', '/[ g]/'): 'same',
     ('TyrvingCalculator.race_points', 'py', ','): 'decimal comma: str.replace in Python, regex in JS',
     ('TyrvingCalculator.race_points', 'js', '/,/'): 'same', ('TyrvingCalculator.race_points', 'js', '/\\./'): 'count of points via regex',
-    ('qkids_score', 'py', ' '): "blank removal: replace(' ', '') in Python, regex in JS", ('qkids_score', 'js', '/\\s/'): 'same',
+
 }
 
 
@@ -79,7 +79,13 @@ def js_strs(fn):
     out = set()
     for n in jsast.jwalk(fn):
         if n['type'] == 'Literal' and 'regex' in n:
-            out.add('/' + n['regex']['pattern'] + '/')
+            pat = n['regex']['pattern']
+            if len(pat) == 1 and pat not in '.^$*+?()[]{}|\\':
+                out.add(pat)                    # /x/ is the one-character string 'x'
+            elif len(pat) == 2 and pat[0] == '\\' and not pat[1].isalnum():
+                out.add(pat[1])
+            else:
+                out.add('/' + pat + '/')
         elif n['type'] == 'Literal' and isinstance(n.get('value'), str) and 0 < len(n['value']) <= 3:
             out.add(n['value'])
     return out
@@ -205,6 +211,56 @@ def js_truthy(fn):
         if n['type'] in ('IfStatement', 'WhileStatement', 'ConditionalExpression') and n.get('test'):
             tests(n['test'])
     return c
+
+
+# replace() semantics: Python's str.replace replaces every occurrence (unless a count is given); JavaScript's replace with a string
+# pattern replaces the first one only, with a /g regex every one
+ALLOW_REPLACE = {
+    ('TyrvingCalculator.jump_points', 'py', ('lit', ',', '.', 'all')): "decimal comma: a mark holds at most one; with two both sides refuse (ValueError / NaN)",
+    ('TyrvingCalculator.jump_points', 'js', ('lit', ',', '.', 'first')): "decimal comma, see the Python entry",
+    ('TyrvingCalculator.stav_points', 'py', ('lit', ',', '.', 'all')): "decimal comma: a mark holds at most one; with two both sides refuse (ValueError / NaN)",
+    ('TyrvingCalculator.stav_points', 'js', ('lit', ',', '.', 'first')): "decimal comma, see the Python entry",
+}
+
+
+def py_replaces(fn):
+    import collections
+    out = collections.Counter()
+    for n in ast.walk(fn):
+        if isinstance(n, ast.Call) and isinstance(n.func, ast.Attribute) and n.func.attr == 'replace' and len(n.args) >= 2 \
+                and all(isinstance(a, ast.Constant) and isinstance(a.value, str) for a in n.args[:2]):
+            scope = 'all'
+            if len(n.args) >= 3:
+                scope = 'first' if isinstance(n.args[2], ast.Constant) and n.args[2].value == 1 else 'count'
+            out[('lit', n.args[0].value, n.args[1].value, scope)] += 1
+        # ''.join(x.split()) removes all whitespace
+        if isinstance(n, ast.Call) and isinstance(n.func, ast.Attribute) and n.func.attr == 'join' and isinstance(n.func.value, ast.Constant) \
+                and n.args and isinstance(n.args[0], ast.Call) and isinstance(n.args[0].func, ast.Attribute) and n.args[0].func.attr == 'split' \
+                and not n.args[0].args:
+            out[('class', '\\s', n.func.value.value, 'all')] += 1
+    return out
+
+
+def js_replaces(fn):
+    import collections
+    out = collections.Counter()
+    for n in jsast.jwalk(fn):
+        if n['type'] == 'CallExpression' and n['callee']['type'] == 'MemberExpression' and n['callee']['property'].get('name') == 'replace' \
+                and len(n['arguments']) >= 2 and n['arguments'][1]['type'] == 'Literal' and isinstance(n['arguments'][1].get('value'), str):
+            a, b = n['arguments'][0], n['arguments'][1]['value']
+            if a['type'] == 'Literal' and 'regex' in a:
+                pat, flags = a['regex']['pattern'], a['regex']['flags']
+                scope = 'all' if 'g' in flags else 'first'
+                if len(pat) == 1 and pat not in '.^$*+?()[]{}|\\':
+                    out[('lit', pat, b, scope)] += 1
+                elif len(pat) == 2 and pat[0] == '\\' and not pat[1].isalnum():
+                    out[('lit', pat[1], b, scope)] += 1
+                else:
+                    out[('class', pat, b, scope)] += 1
+            elif a['type'] == 'Literal' and isinstance(a.get('value'), str):
+                # the third argument of String.prototype.replace is ignored: a string pattern replaces the first occurrence
+                out[('lit', a['value'], b, 'first')] += 1
+    return out
 
 
 def js_regex_to_py(src):
@@ -419,6 +475,17 @@ def run(ctx, repo):
                                                                     'its port ' + jq if side == 'py' else 'the original ' + pq), nm)
         if tres:
             res_py = res_py or ['truthiness']
+        # replace() operations: same characters, same replacement, same scope (every occurrence / the first)
+        pr, jr = py_replaces(pf), js_replaces(jfun[mod][jq])
+        rres = [('py', k) for k in sorted((pr - jr)) if (pq, 'py', k) not in ALLOW_REPLACE] + \
+               [('js', k) for k in sorted((jr - pr)) if (pq, 'js', k) not in ALLOW_REPLACE]
+        if rres:
+            ctx.finding('R3', '%s::%s::replace operations differ' % (JS[mod], jq), JS[mod], jsast.line(jfun[mod][jq]),
+                        'the text replacements of %s and its port %s differ: %s.  Python replaces every occurrence unless a count is given; '
+                        'JavaScript replaces the first occurrence for a string pattern and every one for a /g regex; \\s is all white space, '
+                        "' ' a blank" % (pq, jq, '; '.join('%s has %s %r -> %r (%s)' % (('Python' if sd == 'py' else 'JavaScript'), k[0], k[1], k[2], k[3])
+                                                          for sd, k in rres)), [list(k) for _sd, k in rres])
+            res_py = res_py or ['replace']
         if not res_py and not res_js and pc == jc and not sres:
             ctx.ok('R3', '%s <-> %s: %d predicates, constants %s agree' % (pq, jq, len(pp | jp), sorted(pc)))
     ctx.floor('ported pairs compared', n_pairs, 18)
